@@ -23,7 +23,7 @@ RULE = ("sampler class {MiniPCNSMC, EmceeSMC, BlackJAXSMC, Emcee, MiniPCN} x pre
         "functions {smooth, likelihood NaN outside prior, likelihood -inf on a half-line, proposal -inf off a window}; oracle: "
         "(1-beta) q(x)+beta(L(x)+pi(x))+log|det dx/dz| with x and the Jacobian obtained from the sampler's own inverse map by "
         "central differences (for the pure logit map also the far tails z in {+-16, +-25, 30}, beyond the forward map's clipping margin, against the closed-form Jacobian); zero prior => exactly -inf; NaN => -inf (SMC). Plus: in real runs the function handed to the "
-        "kernel is probed at every invocation and must be the target at the temperature just recorded. "
+        "kernel is probed at every invocation and must be the target at the temperature just recorded; for BlackJAXSMC every (z, value) pair the stand-in rwmh kernel evaluates (under whatever jit/vmap/scan the sampler wraps it in) is exported at run time and compared with the target under the transform fitted for that mutation. "
         "non-trivial = point with finite target under a non-identity map or a zero-prior / NaN point")
 ASSUMPTIONS = [
     "finite z grid and option menu (checks/c05.py)",
@@ -53,18 +53,20 @@ def user_menu(name, d):
     return like, prior
 
 
-def build_sampler(cls, precond, ns, d, menu, window):
+def build_sampler(cls, precond, ns, d, menu, window, dtype=None):
     from aspire import Aspire
+    from env import get_dtype
 
     xp = get_xp(ns)
     like, prior = user_menu(menu, d)
     mon = Monitor(like, prior, ns, keep_points=False)
     params = ["a", "b"][:d]
     lo, hi = LO[:d], HI[:d]
+    fdt = get_dtype(ns, dtype)
     if window:
-        flow = AnalyticFlow(d, sigma=None, lo=lo + 0.5, hi=hi - 0.25, seed=0, xp_name=ns)
+        flow = AnalyticFlow(d, sigma=None, lo=lo + 0.5, hi=hi - 0.25, seed=0, xp_name=ns, dtype=fdt)
     else:
-        flow = AnalyticFlow(d, mu=[1.5, 3.0][:d], sigma=[2.0, 1.5][:d], seed=0, xp_name=ns)
+        flow = AnalyticFlow(d, mu=[1.5, 3.0][:d], sigma=[2.0, 1.5][:d], seed=0, xp_name=ns, dtype=fdt)
     bounds = {p: [float(l), float(h)] for p, l, h in zip(params, lo, hi)}
     periodic = None
     pk = None
@@ -83,7 +85,7 @@ def build_sampler(cls, precond, ns, d, menu, window):
         pre = "flow"
         pk = {"fit_kwargs": {"n_epochs": 2, "batch_size": 16}, "bounded_transform": "logit"}
     a = Aspire(log_likelihood=mon.log_likelihood, log_prior=mon.log_prior, dims=d, parameters=params, prior_bounds=bounds,
-               periodic_parameters=periodic, flow=flow, xp=xp, flow_backend="zuko")
+               periodic_parameters=periodic, flow=flow, xp=xp, flow_backend="zuko", **({"dtype": fdt} if dtype else {}))
     kw = {}
     smp = a.init_sampler(cls, preconditioning=pre, preconditioning_kwargs=pk, **kw)
     return a, smp, mon, flow, like, prior
@@ -144,11 +146,14 @@ def fd_logdet(inv, z, h=1e-5):
 
 
 def run_config(arg):
-    cls, precond, ns, d, menu, window, pop_id, tier = arg
+    cls, precond, ns, d, menu, window, pop_id, tier = arg[:8]
+    dtype = arg[8] if len(arg) > 8 else None  # a precision requested by the user (torch's default is float32)
     r = Report()
     case0 = {"sampler": cls, "precond": precond, "ns": ns, "d": d, "menu": menu, "window": window, "pop": pop_id}
+    if dtype:
+        case0["dtype"] = dtype
     try:
-        a, smp, mon, flow, like, prior = build_sampler(cls, precond, ns, d, menu, window)
+        a, smp, mon, flow, like, prior = build_sampler(cls, precond, ns, d, menu, window, dtype)
         xp = get_xp(ns)
         lo, hi = LO[:d], HI[:d]
         pop = POPS[pop_id](d, lo, hi)
@@ -236,8 +241,12 @@ def run_config(arg):
                 want = base + ld
                 r.outcomes.add(round(want, 4))
                 tol = 2e-4 * (1 + abs(ld)) + 1e-6 * abs(base) + (1e-4 * (abs(base) + 1) if ns == "torch" or kernel_ns == "jax" and False else 0)
-                if ns == "torch":
+                if ns == "torch" and dtype != "float64":
                     tol += 2e-6 * (abs(base) + abs(ld) + 1) * 50
+                if precond == "none" and (ns != "torch" or dtype == "float64"):
+                    # identity map in double precision: nothing but rounding of a few sums separates the two values
+                    ld, want = 0.0, base
+                    tol = 1e-9 * (1 + abs(base))
                 if precond == "flow":
                     tol += 2e-2  # float32 flow, finite differences with a coarse step
                 if not (abs(got - want) <= tol):
@@ -317,6 +326,84 @@ def run_probe(arg):
     return r.dump()
 
 
+def run_blackjax_probe(arg):
+    """BlackJAXSMC: every (z, log-density) pair the stand-in rwmh kernel evaluates during a real run is recorded at run time
+    and compared with the target at the temperature of that mutation under the preconditioning transform fitted for it."""
+    precond, sched = arg
+    import blackjax
+    import jax
+    import jax.numpy as jnp
+    from aspire import Aspire
+    from env.jax_env import JaxGaussFlow, JaxMonitor
+
+    r = Report()
+    case = {"blackjax_probe": True, "precond": precond, "sched": sched}
+    mon = JaxMonitor([-5.0, -4.0], [5.0, 6.0], [1.0, 2.0], [0.7, 0.9])
+    flow = JaxGaussFlow(2, [0.5, 1.0], [2.5, 2.2], seed=0)
+    pk, pre = None, "none"
+    if precond == "logit":
+        pre, pk = "default", {"bounded_to_unbounded": True, "bounded_transform": "logit"}
+    elif precond == "affine":
+        pre, pk = "default", {"affine_transform": True}
+    elif precond == "logit+affine":
+        pre, pk = "default", {"bounded_to_unbounded": True, "bounded_transform": "logit", "affine_transform": True}
+    a = Aspire(log_likelihood=mon.log_likelihood, log_prior=mon.log_prior, dims=2, parameters=["a", "b"],
+               prior_bounds={"a": [-5.0, 5.0], "b": [-4.0, 6.0]}, flow=flow, xp=jnp)
+    smp = a.init_sampler("blackjax_smc", preconditioning=pre, preconditioning_kwargs=pk, rng=np.random.default_rng(0))
+    a._sampler = smp
+    recorded = []
+    checked = []
+    blackjax.RECORD["fn"] = lambda z, ld: recorded.append((np.asarray(z, dtype=np.float64).copy(), float(ld)))
+    orig_mutate = smp.mutate
+
+    def mutate(particles, beta, n_steps=None):
+        del recorded[:]
+        out = orig_mutate(particles, beta, n_steps=n_steps) if n_steps is not None else orig_mutate(particles, beta)
+        jax.effects_barrier()
+        tr = smp.preconditioning_transform
+        pts = list(recorded)
+        del recorded[:]
+        if not pts:
+            return out
+        Z = np.stack([p[0] for p in pts])
+        got = np.array([p[1] for p in pts])
+        x, lj = tr.inverse(tr.xp.asarray(Z))
+        x = np.asarray(x, dtype=np.float64)
+        lj = np.asarray(lj, dtype=np.float64).reshape(-1)
+        with np.errstate(all="ignore"):
+            L, P = mon.like_np(x), mon.prior_np(x)
+            Q = np.asarray(flow.log_prob(x), dtype=np.float64)
+            want = (1 - beta) * Q + beta * (L + P) + lj
+        checked.append((float(beta), Z, got, want))
+        return out
+
+    smp.mutate = mutate
+    try:
+        smp.sample(8, rng_key=jax.random.key(0), sampler_kwargs={"algorithm": "rwmh", "n_steps": 2, "sigma": 0.3}, n_final_samples=10, **sched)
+    except Exception as e:
+        from env import exc_site
+
+        r.case(explorer.digest(case))
+        r.violation(f"C05/blackjax_smc/as-seen-by-kernel/run-raises/{type(e).__name__}/{exc_site(e)}", repr(e)[:200], case)
+        return r.dump()
+    finally:
+        blackjax.RECORD["fn"] = None
+    if len(checked) < 2:
+        raise explorer.HarnessError("blackjax probe recorded fewer than two mutations")
+    for i, (beta, Z, got, want) in enumerate(checked):
+        for k in range(len(got)):
+            r.case(explorer.digest([case, i, k]), nontrivial=i > 0)
+            w, g = want[k], got[k]
+            ok = (g == w) or (np.isnan(w) and g == -np.inf) or (np.isfinite(w) and np.isfinite(g) and abs(g - w) <= 1e-6 * (1 + abs(w)))
+            if not ok and not (w == -np.inf and g == -np.inf):
+                r.violation(f"C05/blackjax_smc/as-seen-by-kernel/target-mismatch/{precond}",
+                            {"mutation": i, "beta": beta, "z": Z[k].tolist(), "got": float(g), "want": float(w)}, case)
+                break
+    r.count("blackjax_kernel_evaluations_checked", sum(len(c[2]) for c in checked))
+    r.sample(case)
+    return r.dump()
+
+
 def dispatch(job):
     return globals()[job[0]](job[1])
 
@@ -345,10 +432,19 @@ def configs(tier):
                             pops = (0, 1, 2) if ("affine" in precond and tier == "thorough") else (0,) if "affine" not in precond else (0, 2)
                             for pop in pops:
                                 out.append(("run_config", (cls, precond, ns, d, menu, window, pop, tier)))
+    # torch with a requested float64 (its default width is float32): the target is accurate to double precision
+    for cls in SAMPLERS:
+        if cls == "blackjax_smc":
+            continue
+        for precond in ("none", "logit"):
+            out.append(("run_config", (cls, precond, "torch", 2, "smooth", False, 0, tier, "float64")))
     for sampler in ("smc", "emcee_smc"):
         for precond in ("none", "periodic", "logit_affine", "probit"):
             for sched in ({"adaptive": True, "target_efficiency": 0.8}, {"adaptive": False, "n_steps": 3}):
                 out.append(("run_probe", (sampler, precond, sched)))
+    for precond in ("none", "logit", "affine", "logit+affine"):
+        for sched in ({"adaptive": True, "target_efficiency": 0.8}, {"adaptive": False, "n_steps": 3}):
+            out.append(("run_blackjax_probe", (precond, sched)))
     return out
 
 
@@ -364,8 +460,10 @@ def run(tier, seed, workers):
 
 def replay(case):
     r = Report()
-    if case.get("probe"):
+    if case.get("blackjax_probe"):
+        r.merge(run_blackjax_probe((case["precond"], case["sched"])))
+    elif case.get("probe"):
         r.merge(run_probe((case["sampler"], case["precond"], case["sched"])))
     else:
-        r.merge(run_config((case["sampler"], case["precond"], case["ns"], case["d"], case["menu"], case["window"], case["pop"], "quick")))
+        r.merge(run_config((case["sampler"], case["precond"], case["ns"], case["d"], case["menu"], case["window"], case["pop"], "quick", case.get("dtype"))))
     return r
